@@ -59,6 +59,21 @@ def _sep(rng, enc, kind):
     if kind == 'several':
         return {'k': 'tuple', 'v': rng.choice([['\n', ';'], ['ab', 'ba'],
                                                [',', ';;', 'cc']])}
+    if kind == 'several_len':
+        # separators of different lengths, none contained in another, in
+        # random order (the longest is not the first / last / greatest)
+        while True:
+            n = rng.choice([2, 3, 4])
+            v = []
+            for _ in range(n):
+                ln = rng.choice([1, 2, 3, 4, 6])
+                v.append(''.join(rng.choice('ab\nc,;') for _ in range(ln)))
+            if len(set(map(len, v))) < 2:
+                continue
+            if any(a != b and a in b for a in v for b in v) or \
+                    len(set(v)) < len(v):
+                continue
+            return {'k': 'tuple', 'v': v}
     if kind == 'overlap':
         return {'k': 'tuple', 'v': rng.choice([['b', 'abc'], ['a', 'ba\n'],
                                                [';', 'c;,']])}
@@ -100,12 +115,28 @@ def gen_cases(tier, seed):
                                                             400])])
                 elif o < 0.85:
                     sk = rng.choice(['single', 'multi', 'several', 'regex',
-                                     'multi', 'overlap'])
+                                     'multi', 'overlap', 'several_len',
+                                     'several_len'])
                     ops.append(['readuntil', _sep(rng, enc, sk), sk])
                 else:
                     ops.append(['readline'])
             ops.append(['read', -1])
+            content = None
+            lens = [o[1]['v'] for o in ops
+                    if o[0] == 'readuntil' and o[2] == 'several_len']
+            if lens and rng.random() < 0.8:
+                # make the (long) separators actually occur in the stream
+                parts = []
+                for _ in range(rng.choice([3, 6, 12])):
+                    parts.append(''.join(rng.choice('ab\nc,;z') for _ in
+                                         range(rng.choice([0, 1, 3, 9]))))
+                    parts.append(rng.choice(rng.choice(lens)))
+                content = ''.join(parts)
+                total = len(content)
+                sizes = [rng.randint(0, max(1, 2 * total // npieces))
+                         for _ in range(npieces)]
             cases.append({'kind': 'reads', 'enc': enc, 'total': total,
+                          'content': content,
                           'window': window, 'pkt': pkt, 'sizes': sizes,
                           'ops': ops,
                           'cseed': rng.randrange(1 << 30),
